@@ -65,7 +65,7 @@ def deep_sig(prog, f):
     from engine import inline
     try:
         g = inline.deep_fn(prog, f)
-        sig = leaf_sig(prog, g)
+        sig = leaf_sig(prog, g, keep_known_errors=True)
     except Exception:
         return None
     if not sig or len(sig) > 64 or sum(len(x) for x in sig) > 40000:
@@ -114,9 +114,13 @@ def check_kernels(ctx, rule, names):
 # Leaf helpers (flag words, balance predicates, e-mode predicates, loss socialisation): complete path tables
 # "conditions => return value | stores", overflow (`?` on checked_*) branches left out.
 
-def leaf_sig(prog, f):
+def leaf_sig(prog, f, keep_known_errors=False):
     sig = []
     for cs, r, st in effect_paths(prog, f, inline=1):
+        if keep_known_errors and r and r.startswith("from_residual(Result::Err{") and r.endswith(")") and "undef" not in r:
+            # deep forms: `helper()?` whose spliced body returns a literal Err is the same as returning that Err directly
+            # (a helper with its own error exits inlined into / extracted from its caller)
+            r = r[len("from_residual("):-1]
         if r and r.startswith("from_residual("):
             continue
         if (r and "undef" in r) or any("undef" in c for c in cs):
